@@ -89,6 +89,16 @@ CHECKS = {
             "and a reader process race the writer (every read exactly A or B).",
             "Crash model: process death between two Python-visible I/O calls (no power-loss reordering below the FS API).",
             "DESIGN.md §3 C08"),
+    "C09": ("exploration",
+            "harness-owned schedules: exhaustive enumeration of completion orders of run_parallel via gated thunks (all permutations x failing subsets x worker counts) + Hypothesis sampling + free-running pools; differential parallel-vs-sequential for T1 and T2 fan-out with forced completion orders",
+            "run_parallel: every thunk blocks on its own Event and a controller releases them by a priority permutation, so every "
+            "completion order reachable with w workers is produced deterministically (n<=5 quick, n<=6 thorough, x 2^n failing subsets x "
+            "workers 0-8, key/order_key shapes) against a reference written from the docstring (merge of pairs sorted by (order_key, "
+            "submit index), plain loop for <=1 worker, all failures sorted, merge never invoked on failure, no thunk twice); T1 fan-out "
+            "with get_graph gated per graph and T2 fan-out with shard completion forced: results, order, scores and counters equal the "
+            "sequential path over generated worlds/configs. One listed known finding (cache-eviction counters under capacity pressure).",
+            "Trusted: harness/models/parallel.py; real OS schedules only in the free-running sub-check.",
+            "DESIGN.md §3 C09"),
     "C10": ("exploration",
             "Hypothesis differential test: real batch driver (generated contract-following compute stub, real capture/staging/commit/apply) vs a sequential-loop reference; real-pipeline sub-check behind a known finding",
             "Generated batches of 1-6 agents with arbitrary graph-set overlap, task order, worker limits, per-agent payloads (known and "
